@@ -223,6 +223,7 @@ func c11(r *lp.Run) {
 			continue
 		}
 		base := filepath.Base(f)
+		arrs, arrLens := arraysOf(root)
 		var nodes []npath
 		walkAny(root, nil, func(p npath, v any) {
 			if len(p) > 0 {
@@ -260,6 +261,14 @@ func c11(r *lp.Run) {
 					continue
 				}
 				c11Judge(r, b, nil, fmt.Sprintf("%s: %s at /%s", base, m.name, joinPtr(p)))
+			}
+			// a reference one past the end of some array of the document
+			if len(arrs) > 0 {
+				k := rng.Intn(len(arrs))
+				ref := "#/" + joinPtr(arrs[k]) + "/" + fmt.Sprint(arrLens[k])
+				if b, err := json.Marshal(setAt(cloneJSON(root), p, map[string]any{"$ref": ref}, false)); err == nil {
+					c11Judge(r, b, nil, fmt.Sprintf("%s: $ref %s (index = length) at /%s", base, ref, joinPtr(p)))
+				}
 			}
 			// hostile strings and keys; one with a control character gets a twin without it (K13)
 			for _, kind := range []string{"hostile-string", "hostile-key"} {
@@ -318,6 +327,8 @@ func c11(r *lp.Run) {
 			r.Case("refs", c.line(), out, "c11-refchain:"+strings.SplitN(out, " ", 2)[0], true)
 		}
 	}
+	c11SumCycles(r, r.Rng.Fork(1102))
+	c11Located(r)
 	// past failures and witnesses of known classes
 	for _, o := range corpusObjs("C11") {
 		if d, ok := o["document"].(string); ok {
@@ -394,7 +405,8 @@ func c11JudgeOne(r *lp.Run, data, twin []byte, what string, o genOutcome) {
 
 // K16: two allOf members that both declare a property referring back to the allOf schema
 func c11KnownFatal(what string, o genOutcome) string {
-	if strings.HasPrefix(what, "K16 witness") && strings.Contains(o.msg, "stack overflow") && strings.Contains(o.msg, "merge") {
+	// the class is the root cause: unbounded recursion inside the allOf merge functions
+	if strings.Contains(o.msg, "stack overflow") && (strings.Contains(o.msg, "gen.mergeSchemes") || strings.Contains(o.msg, "gen.mergeProperties") || strings.Contains(o.msg, "gen.mergeNSchemes")) {
 		return "K16"
 	}
 	return ""
